@@ -39,7 +39,7 @@ AREAS = {
         'rule': '1-3 concurrent transfers (package size 1-6 / thorough 1-40, 1-5 / 1-12 packages, last package full or shorter, announced size true or 0, '
                 'serials occasionally colliding) each with 0-2 faults (drop, duplicate-and-move, swap, resize, renumber, corrupt announcement) interleaved at '
                 'random with each other and with unrelated messages; every transfer is labelled from its final event sequence (in order / in order with '
-                'repeats / package missing or out of order / other); non-trivial = tagged (complete, incomplete, missing FLST, duplicates, damaging fault, concurrent)',
+                'repeats / package missing or out of order / other); announced file names by serial: absolute, leading outside (../), with directory parts, `plain.bin` (exists already in the save directory), ending in `..`, colliding base names; in half of the cases a second plugin instance runs with automatic saving (glob * or *.bin) into a fresh directory: every file found there and the number of files created elsewhere are compared; non-trivial = tagged (complete, incomplete, missing FLST, duplicates, damaging fault, concurrent, auto-saved)',
     },
     'pipe': {
         'shrink_sep': ';', 'head_sep': '| ',
@@ -182,7 +182,7 @@ PROPS = {
     },
     'C17': {
         'id': 'C17', 'area': 'ft',
-        'theorems': ['Props.C17_complete_sound', 'Props.C17_inorder_complete'],
+        'theorems': ['Props.C17_complete_sound', 'Props.C17_inorder_complete', 'Props.C17_save_confined', 'Props.C17_save_never_overwrites'],
         'n_quick': 5000, 'n_thorough': 200000,
     },
     'C13': {
